@@ -22,10 +22,15 @@ Definition to_log (univ : list entry) (id : N) (l : olog) : log :=
 Definition setN_eqb (a b : list N) : bool :=
   forallb (fun x => memN x b) a && forallb (fun x => memN x a) b.
 
-(** Access configuration of the database: write list, wildcard, the keys genuinely
-    endorsed by the identities that exist, and the addresses of the entries whose
-    identity block is not a genuine one. *)
-Record acfg := mkCfg { c_W : list N; c_wild : bool; c_idkey : list (N * N); c_badblk : list N }.
+(** Access configuration of the database: the controller type, the creator's identity,
+    the write list AS CONFIGURED (the ids given when the database was created, resp. passed
+    by every opener for the simple controller; possibly empty), wildcard, the keys genuinely
+    endorsed by the identities that exist, and the addresses of the entries whose identity
+    block is not a genuine one.  [c_W] is the list the model says the controller enforces. *)
+Record acfg := mkCfg { c_type : ac_type; c_creator : N; c_conf : list N; c_wild : bool;
+                       c_idkey : list (N * N); c_badblk : list N }.
+
+Definition c_W (c : acfg) : list N := enforced_writers (c_type c) (c_creator c) (c_conf c) (c_wild c).
 
 Definition idkey_of (c : acfg) (i : N) : N :=
   match alookup N.eqb i (c_idkey c) with Some k => k | None => 0%N end.
@@ -105,3 +110,30 @@ Definition frame (d : delivery) : bool :=
   end.
 
 Definition target_entry (d : delivery) : option entry := find_entry (d_target d) (d_univ d).
+
+(** * The snapshot route (spec-only cases [CSnapshot] / [CMutSnapshot])
+
+    The hostile entry sits in the snapshot FILE the victim loads after a restart (as an extra
+    entry frame, in place of a genuine entry's frame under that entry's address, or as an
+    additional head of the header).  [d_before] is what the same restart yields with the
+    untouched snapshot; [d_sync] is whether [LoadFromSnapshot] returned nil.
+
+    A snapshot file states the address of every entry next to its content, so the log can end
+    up holding a content under an address it does not hash to.  The driver therefore renders
+    every object held AFTER the load ([d_after], [d_vals_after]) by the address its content
+    really hashes to, whatever address the log files it under: [present] then finds the
+    hostile entry under its claimed as well as under its true address.
+
+    [LoadFromSnapshot] joins the whole snapshot at once.  When it reports an error, nothing
+    need have been merged, but nothing except what the clean load yields may be there; when it
+    succeeds, [frame]: everything the clean load yields is there. *)
+Definition subsetN (a b : list N) : bool := forallb (fun x => memN x b) a.
+
+Definition frame_load (d : delivery) : bool :=
+  match d_sync d with
+  | Some false =>
+    subsetN (o_ents (d_after d)) (o_ents (d_before d)) &&
+    subsetN (o_heads (d_after d)) (o_ents (d_before d)) &&
+    subsetN (d_vals_after d) (d_vals_before d)
+  | _ => frame d
+  end.
